@@ -99,12 +99,14 @@ let acc_str tagname (m : (z list * z) list) : string =
   "(" ^ tagname ^ String.concat "" (List.map (fun (k, d) -> " " ^ ints (k @ [d])) l) ^ ")"
 
 let bd_shared_str (s : bd_shared) : string =
-  Printf.sprintf "(sh %s %s %s (dels%s) (ren%s))" (acc_str "g" s.bs_global) (acc_str "ph" s.bs_people) (acc_str "mx" s.bs_matrix)
+  Printf.sprintf "(sh %s %s %s (dels%s) (ren%s) (fh%s))" (acc_str "g" s.bs_global) (acc_str "ph" s.bs_people) (acc_str "mx" s.bs_matrix)
     (String.concat "" (List.map (fun k -> " " ^ string_of_int (int_of_z k)) s.bs_deletions))
     (String.concat "" (List.map (fun (k, v) -> Printf.sprintf " (%d %d)" (int_of_z k) (int_of_z v)) s.bs_renames))
+    (String.concat "" (List.map (fun k -> " " ^ string_of_int (int_of_z k)) s.bs_filehist))
 
 let bd_case id c =
   let people = bool_of_sx (List.hd (args (field "people" c))) in
+  let track = (match field_opt "track" c with Some t -> bool_of_sx (List.hd (args t)) | None -> false) in
   let ops = args (field "ops" c) and obs = args (field "obs" c) in
   let pf0 = !n_propfail in
   let st = ref bd_init in
@@ -124,7 +126,7 @@ let bd_case id c =
         | AStep _, ("ok" | "err" | "panic") -> count "steps"; frame_oracle id here "copy" !prev cur (Some target)
         | _, _ -> frame_oracle id here "copy" !prev cur None);
       (* --- the model --- *)
-      let (st', out) = bd_do people a !st in
+      let (st', out) = bd_do people track a !st in
       let failed = (r = "err" || r = "panic") in
       (match out, r with
        | Some BOk, "ok" | Some BErr, "err" | Some BPanic, "panic" | None, ("fork" | "skip") -> ()
